@@ -6,13 +6,13 @@
    signals of the step in order; drop the session of a path where no manager answers).
    listing t m = the reply to GetManagedObjects at m (None if the call fails);  triple v o k = the
    properties of interface k of object o in a view or a listing.
-   Known_C25 h: some step of h, read on the server state before it, (1) successfully registers or
+   Known_C25 h: some step of h, read on the server state before it, successfully registers or
    removes a user interface at a path that has two or more proper ancestors carrying an
-   ObjectManager, or (2) removes the last user interface of a non-root node that has at least one
-   such ancestor while some strict descendant carries a user interface (C25/Model.v, flag25). *)
+   ObjectManager (C25/Model.v, flag25) — the one class left after fix f5fe3276 (a node with children
+   is no longer deleted, so nothing disappears from a listing without InterfacesRemoved). *)
 From ZV Require Import Base.Bytes Base.Res C24.Ops C24.Model C25.Model C25.Spec C25.System C25.Proofs.
 
-(* For every history outside the two known classes, after every prefix of it, for every manager
+(* For every history outside the known class, after every prefix of it, for every manager
    that answers: the client's replayed view and the manager's listing contain the same
    (object, interface, properties) triples — interface-less paths do not count, and the properties
    are the current ones. *)
@@ -33,7 +33,7 @@ Theorem C25_partial_nonvacuous : ~ Known_C25 h_sync /\
 Proof. exact h_sync_ok. Qed.
 Print Assumptions C25_partial_nonvacuous.
 
-(* known finding 1: managers at / and /a; at(/a/b, I1) is announced by /a only, yet / lists it *)
+(* the remaining known finding: managers at / and /a; at(/a/b, I1) is announced by /a only, yet / lists it *)
 Theorem C25_nested_refuted :
   let h := [At [] KM 1; At [B "a"] KM 2; At [B "a"; B "b"] K1 3] in
   (exists lst, listing (fst (after h)) [] = Some lst /\
@@ -43,16 +43,16 @@ Theorem C25_nested_refuted :
 Proof. exact nested_refuted. Qed.
 Print Assumptions C25_nested_refuted.
 
-(* known finding 2: manager at /; removing the last interface of /a deletes /a/b silently: the
-   listing has lost I2 at /a/b, the client still holds it *)
-Theorem C25_subtree_refuted :
+(* repaired by f5fe3276 (formerly C25_subtree_refuted): manager at /; at(/a,I1); at(/a/b,I2);
+   remove::<I1>(/a) keeps /a/b — the history is outside the known class, listing and client agree *)
+Theorem C25_repaired_history :
   let h := [At [] KM 1; At [B "a"] K1 2; At [B "a"; B "b"] K2 3; Rm [B "a"] K1] in
-  (exists lst, listing (fst (after h)) [] = Some lst /\
-     triple lst [B "a"; B "b"] I2 = None /\
-     triple (view_of (snd (after h)) []) [B "a"; B "b"] I2 = Some []) /\
-  first_flag25 root0 h = Some SubtreeSilent.
-Proof. exact silent_refuted. Qed.
-Print Assumptions C25_subtree_refuted.
+  first_flag25 root0 h = None /\
+  exists lst, listing (fst (after h)) [] = Some lst /\
+     triple lst [B "a"; B "b"] I2 = Some [] /\
+     triple (view_of (snd (after h)) []) [B "a"; B "b"] I2 = Some [].
+Proof. exact silent_repaired. Qed.
+Print Assumptions C25_repaired_history.
 
 (* hence the statement at full strength is false on this tree *)
 Theorem C25_full_statement_refuted : ~ (forall h pre post : list op, h = pre ++ post ->
